@@ -65,6 +65,10 @@ fn text_for(construct: &str, depth: usize) -> String {
         "adderr" => format!("{} >* i1", vec!["i1"; depth + 1].join("+")),
         "negerr" => format!("{}a >* i1", "-".repeat(depth)),
         "listerr" => format!("{}i1{} >* i1", "[".repeat(depth), "]".repeat(depth)),
+        // flat membership tests: the number of items is the "depth" (no nesting at all; must complete whatever the size)
+        "flatcontains" => format!("i7 in [{}]", vec!["i1"; depth + 1].join(", ")),
+        "flatcontainslate" => format!("[{}, i7] contains i7", vec!["i1"; depth + 1].join(", ")),
+        "flatlistcalls" => format!("[{}]", vec!["f(i1)"; depth + 1].join(", ")),
         // flat (not nested) large texts for C06: long lines, long literals, many escapes, with and without a syntax error at the end
         "flat-error-line" => format!("{}>* i1", "i1 + ".repeat(depth)),
         "flat-string-error" => format!("\"{}\" >* i1", "é".repeat(depth)),
